@@ -56,7 +56,7 @@ let () =
           else begin
             let obs = split_ws rhs in
             let i_s = String.concat " " (if kind = "eng" then Kinds_engine.eng_impl_view obs else obs) in
-            if m_s <> i_s then begin
+            if kind <> "engx" && m_s <> i_s then begin
               incr diffs;
               Printf.printf "DIFF line=%d case=%s model=[%s] impl=[%s]\n" !lineno (String.trim lhs) m_s i_s
             end;
